@@ -62,6 +62,16 @@ def _nontrivial(p):
     return len(vals) > 0 and all(v != 0 for v in vals) and len(set(vals)) == len(vals)
 
 
+def validate(case):
+    from vlib import forms as F_
+    ar = F_.ARITY.get(case["form"], 6 if case["form"] == "buck4" else None)
+    if ar is not None and len(case["p"]) != ar:
+        return False
+    if case["form"] == "polynomial" and not case["p"]:
+        return False
+    return all(r > 0 for r in case["rs"]) and len(case["rs"]) > 0
+
+
 def check_case(case):
     name, p, rs = case["form"], case["p"], case["rs"]
     v = []
@@ -104,6 +114,20 @@ def check_case(case):
         except DomainError:
             continue
         want, tol = j.v, 256 * EPS * j.c[0].e + 1e-300
+        # literals inside a custom formula pass through exprtk's own number parser, which is accurate to an
+        # ulp or two only (2.53 -> 2.5300000000000002): the formula route gets the parameter sensitivity on top
+        tol_formula = tol
+        if name != "buck4":
+            jj = j
+            for i, pv in enumerate(p):
+                if float(pv) != int(pv):
+                    q = list(p)
+                    q[i] = pv * (1.0 + model._PERT)
+                    try:
+                        jj = model._inflate(jj, F.REF[name](Jet.var(r, 0), *q))
+                    except DomainError:
+                        pass
+            tol_formula = 256 * EPS * jj.c[0].e + 1e-300
         got = {}
         for rt, f in routes.items():
             try:
@@ -117,11 +141,12 @@ def check_case(case):
                           "as.%s %r at r=%r via %s returned %r" % (name, p, r, rt, got[rt])))
                 del got[rt]
                 continue
-            if not abs(got[rt] - want) <= tol:
+            t_ = tol_formula if rt == "formula" else tol
+            if not abs(got[rt] - want) <= t_:
                 v.append(("%s:value:%s" % (rt.split("_")[0], name),
                           "as.%s %r at r=%r via %s: got %r, documented formula gives %r (tol %.3g)" % (
-                              name, p, r, rt, got[rt], want, tol)))
-        vals = list(got.values())
+                              name, p, r, rt, got[rt], want, t_)))
+        vals = [x for rt, x in got.items() if rt != "formula"]
         if vals and max(vals) - min(vals) > 1e-12 * j.c[0].e + 1e-300:
             v.append(("routes_disagree:%s" % name, "as.%s %r at r=%r: %r" % (name, p, r, got)))
         checked += 1
